@@ -7,39 +7,39 @@
 
   PROVED: `c12_lfp` (+ `_run`, `_history`: any entry node, any history, every memoised node),
   `c12_stop_is_fix` (+ the loop-level `c12_stop_is_lfp`), `c12_mono`, `c12_lfp_is_fix`,
-  `c12_lfp_is_least`; the upper half of `c12_chain`.  Together with `C14.c14_total` a request
-  for a node of a well-formed program without `FallbackImmediate` nodes ends in the value
-  `lfp P env j`, or in `panic cycle` / `propagated` / `tooManyIterations` — never in anything
-  else; what is not proved is that `tooManyIterations` cannot happen (`c12_terminates`).
+  `c12_lfp_is_least`, and (new, via the simulation between consecutive passes of the DFS,
+  `Proofs/CycleChain*.lean`):
 
-  NOT YET PROVED (intended full statements):
+  * `c12_chain` (full): for the head loop of an outermost head `j`, with `σ t` the state at the
+    start of pass `t` (`σ (t+1) = stIter s1_t j new_t`, expressed by `PassStep`, which is exactly
+    the iterating branch of `executeMaybeIterate`: `c12_passStep_unfold`),
+      `∀ t c w, (σ t).prov.lookup c = some w → ∃ w', (σ (t+1)).prov.lookup c = some w' ∧ le w w'`
+    — the provisional values of consecutive passes form an ascending chain, for identity and for
+    join `cycle_fn`s alike, and no head is ever dropped.  (`c12_chain_partial`,
+    `c12_chain_join_partial` are kept.)
+  * `c12_pass_total`: after the first pass of an outermost head no pass fails: the body of pass
+    `t+1` evaluates successfully, its value is above that of pass `t`, and it creates no new
+    cycle head (the DFS order is value-independent).
+  * `c12_terminates` (+ `_history`): `NoFallback P → 8 * P.n < 200 →` no request ends in
+    `tooManyIterations` (the measure `Σ_{c<n} card (value of c in the pass)` is bounded by `8·n`
+    and strictly increases with every non-converged pass after the first, so a head loop makes
+    at most `8·n + 1` passes; `MAX_ITERATIONS = 200`).
+  * `c12_full`: for a well-formed program without `FallbackImmediate` nodes and `8·n < 200`,
+    EVERY request for an existing node, from any database with correct memos, returns
+    `lfp P env j` and leaves only `lfp` memos and no provisional state — or ends in
+    `panic cycle` / `propagated` (a non-recovering member was re-entered / a poisoned head);
+    `c12_full_history` is the same after any history of requests in the revision.
+  * `c12_full_recovering`: if moreover every node has a recovery strategy (`fixpoint`) and
+    nothing is poisoned, the request returns `lfp P env j` — total correctness.
 
-  * `c12_chain` (full): for the head loop of an outermost head `j`, with `s_t` the state at the
-    start of pass `t` (`s_{t+1} = stIter s1_t j new_t`),
-      `∀ t c w, s_t.prov.lookup c = some w → ∃ w', s_{t+1}.prov.lookup c = some w' ∧ le w w'`.
-    Proved below: `c12_chain_partial` — every provisional and every cached value of every
-    reachable state is below `lfp` (the upper half), and `c12_chain_join_partial` — one loop
-    step is ascending for heads whose `cycle_fn` is the join.
-  * `c12_terminates`: `NoFallback P → 8 * P.n < 200 → (eval …) ≠ .error ⟨.tooManyIterations, _⟩`
-    (at most `8·k+1` iterations for `k` heads).
-    Both need a *simulation between two consecutive passes* of the DFS, which has been worked
-    out but not formalised:  relation `Sim F l r` between a state `l` of pass `t` and the
-    corresponding state `r` of pass `t+1` (same stack; `r.final = F ⊇ l.final`; same cache keys
-    with pointwise larger values; `dom l.prov ⊆ dom r.prov` with larger values; every head of
-    `r` is a head at the end of pass `t`), with the lemmas  (1) `fetch`/`evalM`/`execute`
-    preserve `Sim` and `le v v'` — the only asymmetric case is "pass `t` executes a node that
-    pass `t+1` finds final", which is closed by `eval_sound` (`v ≤ lfp = v'`) because such a
-    sub-run leaves no provisional state;  (2) hence the heads known at the start of a pass are
-    all recomputed in it and no new head appears after pass 0 (the DFS order is
-    value-independent);  (3) `cycleFn` is monotone in both arguments, which gives the chain;
-    (4) the measure `Σ_{c<n} card (value of c in pass t)` is bounded by `8·n` and strictly
-    increases with every non-converged pass, which gives termination.
-    Evidence meanwhile: `C15.c15_bounded` (the loop always ends within `MAX_ITERATIONS`
-    increments, in a value or a panic); the non-vacuity examples below; the driver corpus and
-    1.3 M fuzzed requests (programs of up to 7 nodes, mixed strategies, all entry orders) never
-    needed more than 3 iterations and never produced `too-many-iterations`.
+  NOT PROVED: nothing of the intended statement.  Possible strengthening (not needed for the
+  property): the bodies are bitwise, so the bits evolve independently and a loop makes at most
+  `n + 1` passes; `P.n < 200` would then suffice in `c12_terminates` instead of `8 * P.n < 200`.
+  The driver corpus and 1.3 M fuzzed requests (programs of up to 7 nodes) never needed more
+  than 3 iterations.
 -/
-import SalsaVerif.Proofs.CycleSound
+import SalsaVerif.Proofs.CycleChainTotal
+import SalsaVerif.Proofs.CycleFuel
 
 namespace SalsaVerif.Props.C12
 open SalsaVerif.Model.Cycle SalsaVerif.Proofs.Cycle
@@ -159,6 +159,142 @@ theorem c12_chain_join_partial (P : Prog) (j last v : Nat) :
     | panic => exact le_refl _
     | fixpoint b => cases b <;> first | exact le_refl _ | exact le_or_left _ _
 
+/-! ## the ascending chain, termination, the full property -/
+
+/-- the fetch function of the engine at stack-depth fuel `d`. -/
+abbrev readOf (P : Prog) (env : Nat → Nat) (d : Nat) : Nat → St → Res Fetched :=
+  fetch P (execute P env d)
+
+/-- `PassStep … outer s s'` (one non-converged pass of the head loop of `j`, from the start `s`
+    of the pass to the start `s' = stIter s1 j new` of the next) is exactly the iterating branch
+    of `executeMaybeIterate`. -/
+theorem c12_passStep_unfold (P : Prog) (env : Nat → Nat) (read : Nat → St → Res Fetched)
+    (j : Nat) (outer : Bool) (s s' : St) (fuel stamp stamp' : Nat)
+    (h : PassStep P env read j outer s s')
+    (hi : SalsaVerif.Gen.Stamp.IterationStamp.increment_iteration stamp = some stamp') :
+    executeMaybeIterate P env read j outer (fuel + 1) stamp s
+      = executeMaybeIterate P env read j true fuel stamp' s' :=
+  passStep_unfold P env read j outer s s' fuel stamp stamp' h hi
+
+/-- **c12_chain.**  Let `σ 0` be a reachable state (`Inv`) in which `j` is on top of the stack
+    and no cycle head is known — the start of the first pass of an outermost head — and
+    `σ (i+1)` the start of the pass after the non-converged pass `i` (`PassSeq`).  Then the
+    provisional values of consecutive passes form an ascending chain: every head of pass `t` is a
+    head of pass `t+1` with a larger (or equal) provisional value. -/
+theorem c12_chain (P : Prog) (env : Nat → Nat) (hNF : NoFallback P) (d j : Nat) (rest : List Nat)
+    (σ : Nat → St) (T : Nat) (hσ : PassSeq P env (readOf P env d) j rest σ T) :
+    ∀ t, t < T → ∀ c w, (σ t).prov.lookup c = some w →
+      ∃ w', (σ (t + 1)).prov.lookup c = some w' ∧ le w w' :=
+  loop_chain P env _ j rest (fetch_spec P env hNF (execute_spec P env hNF d))
+    (fetch_RH P env (execute_RH P env hNF d))
+    (fetch_sim P env hNF (execute_spec P env hNF d) (execute_RH P env hNF d)
+      (execute_sim P env hNF d)) hNF σ T hσ
+
+/-- **c12_pass_total.**  In the same situation the body of pass `t+1` evaluates successfully
+    whenever pass `t` did (no panic after the first pass), it creates no new cycle head, its
+    value is above that of pass `t`, and the provisional memos of the two passes have the same
+    keys with pointwise larger values (the DFS order is value-independent). -/
+theorem c12_pass_total (P : Prog) (env : Nat → Nat) (hNF : NoFallback P) (d j : Nat)
+    (rest : List Nat) (σ : Nat → St) (T : Nat)
+    (hσ : PassSeq P env (readOf P env d) j rest σ T) (t : Nat) (ht : t < T) :
+    ∃ v hs s1 v' hs' s1', evalM env (readOf P env d) (P.node j).body (σ t) = .ok (v, hs, s1) ∧
+      evalM env (readOf P env d) (P.node j).body (σ (t + 1)) = .ok (v', hs', s1') ∧
+      s1'.prov = (σ (t + 1)).prov ∧ le v v' ∧
+      (∀ c w, cval s1 c = some w → ∃ w', cval s1' c = some w' ∧ le w w') ∧
+      (∀ c, cval s1 c = none → cval s1' c = none) :=
+  loop_pass_total P env _ j rest (fetch_spec P env hNF (execute_spec P env hNF d))
+    (fetch_RH P env (execute_RH P env hNF d))
+    (fetch_sim P env hNF (execute_spec P env hNF d) (execute_RH P env hNF d)
+      (execute_sim P env hNF d)) hNF σ T hσ t ht
+
+/-- **c12_terminates.**  For a program without `FallbackImmediate` nodes whose lattice height
+    `8·n` (8-bit sets, `n` nodes) is below `MAX_ITERATIONS = 200`, a request against a database
+    with correct memos never ends in `tooManyIterations`. -/
+theorem c12_terminates (P : Prog) (env : Nat → Nat) (hNF : NoFallback P) (hn : 8 * P.n < 200)
+    (final : List (Nat × Nat)) (hdb : DbOk P env final) (poisoned : List Nat) (j : Nat)
+    (e : Panic) (h : eval P env final poisoned j = .error e) : e.cls ≠ .tooManyIterations :=
+  eval_noTM P env hNF hn hdb poisoned j e h
+
+example : SalsaVerif.Gen.Stamp.MAX_ITERATIONS = 200 := rfl
+
+/-- … after any history of requests in the revision. -/
+theorem c12_terminates_history (P : Prog) (env : Nat → Nat) (hNF : NoFallback P)
+    (hn : 8 * P.n < 200) (js : List Nat) (j : Nat) :
+    ((gets P env Db.empty js).get P env j).1 ≠ .panic .tooManyIterations := by
+  have hdb : DbOk P env (gets P env Db.empty js).final :=
+    dbOk_gets P env hNF js Db.empty (dbOk_nil P env)
+  unfold Db.get
+  cases he : eval P env (gets P env Db.empty js).final (gets P env Db.empty js).poisoned j with
+  | ok r => intro h; cases h
+  | error e =>
+    intro h
+    injection h with h
+    exact c12_terminates P env hNF hn _ hdb _ j e he h
+
+/-- **c12_full.**  Well-formed program, no `FallbackImmediate` node, `8·n < 200`: EVERY request
+    for an existing node against a database with correct memos returns `lfp P env j`, leaving
+    only `lfp` memos (closed under callees) and no provisional state — or it ends in
+    `panic cycle` (a node without recovery was re-entered) or `propagated` (a head poisoned
+    earlier in the revision).  No hang, no `tooManyIterations`, no other outcome. -/
+theorem c12_full (P : Prog) (env : Nat → Nat) (hW : P.Wf) (hNF : NoFallback P)
+    (hn : 8 * P.n < 200) (final : List (Nat × Nat)) (hdb : DbOk P env final)
+    (poisoned : List Nat) (j : Nat) (hj : j < P.n) :
+    (∃ s, eval P env final poisoned j = .ok (lfp P env j, s) ∧
+      s.final.lookup j = some (lfp P env j) ∧
+      (∀ i w, s.final.lookup i = some w → w = lfp P env i) ∧
+      (∀ i w, s.final.lookup i = some w →
+        ∀ c ∈ callees env (P.node i).body, (s.final.lookup c).isSome = true) ∧
+      s.stack = [] ∧ s.prov = [] ∧ s.cache = []) ∨
+    (∃ e, eval P env final poisoned j = .error e ∧ (e.cls = .cycle ∨ e.cls = .propagated)) := by
+  cases h : eval P env final poisoned j with
+  | ok r =>
+    obtain ⟨v, s⟩ := r
+    obtain ⟨h1, h2, h3, h4, h5, h6, h7⟩ := c12_lfp P env hNF final hdb poisoned j v s h
+    subst h1
+    exact Or.inl ⟨s, rfl, h2, h3, h4, h5, h6, h7⟩
+  | error e =>
+    right
+    refine ⟨e, rfl, ?_⟩
+    have h1 := eval_fuel P env hW final poisoned j hj e h
+    have h2 := c12_terminates P env hNF hn final hdb poisoned j e h
+    cases hc : e.cls with
+    | cycle => exact Or.inl rfl
+    | propagated => exact Or.inr rfl
+    | tooManyIterations => exact absurd hc h2
+    | outOfFuel => exact absurd hc h1
+
+/-- … after any history of requests in the revision (panicking ones included). -/
+theorem c12_full_history (P : Prog) (env : Nat → Nat) (hW : P.Wf) (hNF : NoFallback P)
+    (hn : 8 * P.n < 200) (js : List Nat) (j : Nat) (hj : j < P.n) :
+    (∃ k, ((gets P env Db.empty js).get P env j).1 = .value (lfp P env j) k) ∨
+    ((gets P env Db.empty js).get P env j).1 = .panic .cycle ∨
+    ((gets P env Db.empty js).get P env j).1 = .panic .propagated := by
+  have hdb : DbOk P env (gets P env Db.empty js).final :=
+    dbOk_gets P env hNF js Db.empty (dbOk_nil P env)
+  rcases c12_full P env hW hNF hn _ hdb (gets P env Db.empty js).poisoned j hj with
+    ⟨s, hs, _⟩ | ⟨e, he, hc⟩
+  · left
+    refine ⟨s.iters, ?_⟩
+    unfold Db.get; rw [hs]
+  · right
+    unfold Db.get; rw [he]
+    rcases hc with hc | hc
+    · left; show Outcome.panic e.cls = _; rw [hc]
+    · right; show Outcome.panic e.cls = _; rw [hc]
+
+/-- **c12_full_recovering.**  If moreover every node has a recovery strategy (all `fixpoint`)
+    and nothing is poisoned, the request returns the least fixpoint: total correctness. -/
+theorem c12_full_recovering (P : Prog) (env : Nat → Nat) (hW : P.Wf) (hNF : NoFallback P)
+    (hRec : Recovering P) (hn : 8 * P.n < 200) (final : List (Nat × Nat))
+    (hdb : DbOk P env final) (j : Nat) (hj : j < P.n) :
+    ∃ s, eval P env final [] j = .ok (lfp P env j, s) ∧
+      (∀ i w, s.final.lookup i = some w → w = lfp P env i) ∧
+      s.stack = [] ∧ s.prov = [] ∧ s.cache = [] := by
+  obtain ⟨v, s, h⟩ := eval_ok P env hNF hn hW hRec hdb j hj
+  obtain ⟨h1, _, h3, _, h5, h6, h7⟩ := c12_lfp P env hNF final hdb [] j v s h
+  subst h1
+  exact ⟨s, h, h3, h5, h6, h7⟩
+
 /-! ## non-vacuity -/
 
 /-- `n0 = {0} ∪ n1`, `n1 = {1} ∪ (n0 ∩ in0)`, `n2 = n1 ∪ n2` (join). -/
@@ -188,5 +324,87 @@ example : okOf (·.2.iters) (eval ex1 env1 [] [] 0) = some 1 := by decide
 example : okOf (fun r => (r.2.final.lookup 0, r.2.final.lookup 1)) (eval ex1 env1 [] [] 2)
     = some (some 3, some 3) := by decide
 example : ((gets ex1 env1 Db.empty [2, 1]).get ex1 env1 0).1 = .value 3 0 := by decide
+
+
+/-! ### nested cycles: chain, termination, the full property -/
+
+/-- three nested heads: `n0 = {0} ∪ n1`, `n1 = n2 ∪ n0`, `n2 = n3 ∪ n1`, `n3 = {3} ∪ n2` (join).
+    A request for `n0` makes `n0` the outermost head with the nested heads `n1`, `n2`; the bit
+    `3` travels one head per pass: 4 passes (3 `WillIterateCycle` steps). -/
+def ex3 : Prog := ⟨[
+  ⟨.fixpoint false, .union (.const 1) (.call 1)⟩,
+  ⟨.fixpoint false, .union (.call 2) (.call 0)⟩,
+  ⟨.fixpoint false, .union (.call 3) (.call 1)⟩,
+  ⟨.fixpoint true, .union (.const 8) (.call 2)⟩]⟩
+
+theorem ex3_noFallback : NoFallback ex3 := by
+  intro j v
+  unfold Prog.node
+  match j with
+  | 0 => simp [ex3]
+  | 1 => simp [ex3]
+  | 2 => simp [ex3]
+  | 3 => simp [ex3]
+  | n + 4 => simp [ex3]
+
+theorem ex3_recovering : Recovering ex3 := by
+  intro c hc
+  unfold Prog.node
+  match c, hc with
+  | 0, _ => simp [ex3]
+  | 1, _ => simp [ex3]
+  | 2, _ => simp [ex3]
+  | 3, _ => simp [ex3]
+  | n + 4, h => exact absurd h (by simp [Prog.n, ex3])
+
+example : ex3.Wf := by decide
+example : 8 * ex3.n < 200 := by decide
+example : lfpL ex3 env1 = [9, 9, 9, 9] := by decide
+example : okOf (fun r => (r.1, r.2.iters)) (eval ex3 env1 [] [] 0) = some (9, 3) := by decide
+example : okOf (fun r => (r.1, r.2.iters)) (eval ex3 env1 [] [] 2) = some (9, 2) := by decide
+
+/-- the hypotheses of `c12_full` / `c12_full_recovering` are satisfiable (nested-cycle program,
+    every entry node), and the conclusion is the left disjunct. -/
+example (j : Nat) (hj : j < ex3.n) :
+    ∃ s, eval ex3 env1 [] [] j = .ok (lfp ex3 env1 j, s) ∧
+      (∀ i w, s.final.lookup i = some w → w = lfp ex3 env1 i) ∧
+      s.stack = [] ∧ s.prov = [] ∧ s.cache = [] :=
+  c12_full_recovering ex3 env1 (by decide) ex3_noFallback ex3_recovering (by decide) []
+    (dbOk_nil ex3 env1) j hj
+
+example : ((gets ex3 env1 Db.empty [3, 1]).get ex3 env1 0).1 ≠ .panic .tooManyIterations :=
+  c12_terminates_history ex3 env1 ex3_noFallback (by decide) [3, 1] 0
+
+/-- the pass-start states of the head loop of `n0` in the request `get n0` from scratch. -/
+def nextSt3 (s : St) : St :=
+  match evalM env1 (readOf ex3 env1 5) (ex3.node 0).body s with
+  | .ok (v, _, s1) =>
+    match s1.prov.lookup 0 with
+    | some last => stIter s1 0 (cycleFn ex3 0 last v)
+    | none => s
+  | .error _ => s
+
+def σ3 : Nat → St
+  | 0 => { (St.init [] []) with stack := [0] }
+  | t + 1 => nextSt3 (σ3 t)
+
+/-- non-vacuity of `c12_chain` / `c12_pass_total`: three non-converged passes. -/
+theorem ex3_passSeq : PassSeq ex3 env1 (readOf ex3 env1 5) 0 [] σ3 3 := by
+  refine ⟨?_, rfl, rfl, ?_⟩
+  · exact inv_push ex3 env1 (inv_init ex3 env1 (dbOk_nil ex3 env1) []) (by simp [St.init]) rfl rfl
+  · intro i hi
+    match i, hi with
+    | 0, _ => exact ⟨_, _, _, _, rfl, rfl, rfl, rfl, rfl⟩
+    | 1, _ => exact ⟨_, _, _, _, rfl, rfl, rfl, rfl, rfl⟩
+    | 2, _ => exact ⟨_, _, _, _, rfl, rfl, rfl, rfl, rfl⟩
+
+example : ∀ t, t < 3 → ∀ c w, (σ3 t).prov.lookup c = some w →
+    ∃ w', (σ3 (t + 1)).prov.lookup c = some w' ∧ le w w' :=
+  c12_chain ex3 env1 ex3_noFallback 5 0 [] σ3 3 ex3_passSeq
+
+/-- the chain of provisional values `(n0, n1, n2)`: `(9,8,8) ≤ (9,9,8) ≤ (9,9,9)`. -/
+example : ((σ3 0).prov, (σ3 1).prov, (σ3 2).prov, (σ3 3).prov)
+    = ([], [(0, 9), (1, 8), (2, 8)], [(0, 9), (1, 9), (2, 8)], [(0, 9), (1, 9), (2, 9)]) := by
+  decide
 
 end SalsaVerif.Props.C12
